@@ -558,7 +558,7 @@ func (c *c20gChild) probe(n int) string {
 }
 
 func runC20G(run *common.Run) {
-	run.Rule = "GCS half of C20, emulator in child processes built with the race detector (memory and file store). Part 'fuzz': case = one hostile HTTP request - a valid template of every endpoint (bucket create/get/delete, media / multipart / resumable upload incl. chunk PUT/POST and status query, metadata GET, media GET in three URL forms incl. an object whose metadata says gzip but whose bytes are not, list, patch, delete, compose with source preconditions, rewrite, batch) perturbed structurally (parameters dropped / duplicated / junk / negative / huge, path segments dropped / duplicated / appended, bodies truncated, JSON type confusion incl. null sub-objects, multipart without boundary / one part / unterminated, Content-Range garbage, gzip header on non-gzip body, hostile proxy headers, unknown upload ids, damaged batch bodies) or at byte level on a raw TCP stream (bit flips, truncation, insertion, deletion incl. the HTTP framing) - followed by a probe (stored object intact, new upload + read succeed). Well-formed batches of 0-5 parts: one sub-response per part, each equal to the same request sent alone. Part 'mix': rounds of concurrent traffic (listing while deleting, same-name uploads/patches/deletes, bucket delete during uploads, concurrent chunks on one upload id, copies and composes in opposite directions over one pair of objects). Part 'stall': for every body-carrying endpoint a client sends the head and 0, 1, half or all-but-one bytes of the body and goes quiet; meanwhile eleven valid GETs of a second client (objects and bucket the stalled request names, listing) must be answered; then the body is completed and the stalled request must be answered too. Monitors: child exit, 'http: panic serving' / panic / fatal text on its stderr, race-detector reports with a frame in the emulator, a complete HTTP response, JSON bodies parse, error statuses produced by the emulator carry the {error:{code,message}} envelope with code == status, request hang (client watchdog 60 s), probe. Non-trivial = case answered with a 4xx/5xx (fuzz) / well-formed batch with >= 2 parts / mix round; distinct by case."
+	run.Rule = "GCS half of C20, emulator in child processes built with the race detector (memory and file store). Part 'fuzz': case = one hostile HTTP request - a valid template of every endpoint (bucket create/get/delete, media / multipart / resumable upload incl. chunk PUT/POST and status query, metadata GET, media GET in three URL forms incl. an object whose metadata says gzip but whose bytes are not, list, patch, delete, compose with source preconditions, rewrite, batch) incl. object names that are not valid UTF-8 in every position of a request, perturbed structurally (parameters dropped / duplicated / junk / negative / huge, path segments dropped / duplicated / appended, bodies truncated, JSON type confusion incl. null sub-objects, multipart without boundary / one part / unterminated, Content-Range garbage, gzip header on non-gzip body, hostile proxy headers, unknown upload ids, damaged batch bodies) or at byte level on a raw TCP stream (bit flips, truncation, insertion, deletion incl. the HTTP framing) - followed by a probe (stored object intact, new upload + read succeed). Well-formed batches of 0-5 parts: one sub-response per part, each equal to the same request sent alone. Part 'mix': rounds of concurrent traffic (listing while deleting, same-name uploads/patches/deletes, bucket delete during uploads, concurrent chunks on one upload id, copies and composes in opposite directions over one pair of objects). Part 'stall': for every body-carrying endpoint a client sends the head and 0, 1, half or all-but-one bytes of the body and goes quiet; meanwhile eleven valid GETs of a second client (objects and bucket the stalled request names, listing) must be answered; then the body is completed and the stalled request must be answered too. Monitors: child exit, 'http: panic serving' / panic / fatal text on its stderr, race-detector reports with a frame in the emulator, a complete HTTP response, JSON bodies parse, error statuses produced by the emulator carry the {error:{code,message}} envelope with code == status, request hang (client watchdog 60 s), probe. Non-trivial = case answered with a 4xx/5xx (fuzz) / well-formed batch with >= 2 parts / mix round; distinct by case."
 	run.Assumptions = []string{"net/http recovers handler panics per connection, so they are observed as 'http: panic serving' on the child's stderr plus a dropped connection", "raw byte streams that are not an HTTP request may be answered by closing the connection"}
 	scratch, err := os.MkdirTemp("", "verif-c20g-")
 	if err != nil {
@@ -605,6 +605,42 @@ func c20gSweep(run *common.Run, scratch string) {
 			_, uploadID, _ := ch.cl.ResumableInit(c20gB, []byte(`{"name":"res-live.bin"}`), nil, "")
 			tmpls := c20gTemplates(nil, uploadID)
 			n := 0
+			// names that are not valid UTF-8 (percent-encoded bytes 0xff, 0xc3 0x28, a lone 0x80): every upload
+			// protocol, then listings whose page boundary falls on such a name, metadata GET, delete - each request
+			// must get a well-formed answer (accepting or refusing the name), and nothing may panic
+			for bi, raw := range []string{"%FFy", "%FFz", "%C3%28", "ok%80", "dir/%FF/x"} {
+				reqs := []c20gReq{
+					{Method: "POST", Target: "/upload/storage/v1/b/" + c20gB + "/o?uploadType=media&name=" + raw, Hdr: [][2]string{{"Content-Type", "text/plain"}}, Body: []byte("x")},
+					{Method: "POST", Target: "/upload/storage/v1/b/" + c20gB + "/o?uploadType=resumable&name=" + raw + "r", Hdr: [][2]string{{"Content-Type", "application/json"}}, Body: []byte("{}")},
+					{Method: "GET", Target: "/storage/v1/b/" + c20gB + "/o?maxResults=1&prefix=%FF"},
+					{Method: "GET", Target: "/storage/v1/b/" + c20gB + "/o?maxResults=1"},
+					{Method: "GET", Target: "/storage/v1/b/" + c20gB + "/o?maxResults=2&delimiter=/&prefix=" + raw[:3]},
+					{Method: "GET", Target: "/storage/v1/b/" + c20gB + "/o/" + strings.ReplaceAll(raw, "/", "%2F")},
+					{Method: "POST", Target: "/storage/v1/b/" + c20gB + "/o/a.txt/rewriteTo/b/" + c20gB + "/o/" + strings.ReplaceAll(raw, "/", "%2F") + "c", Hdr: [][2]string{{"Content-Type", "application/json"}}, Body: []byte("{}")},
+					{Method: "GET", Target: "/storage/v1/b/" + c20gB + "/o?maxResults=1&prefix=" + raw[:3]},
+				}
+				for qi, q := range reqs {
+					idx := 9_000_000 + (ki*10+bi)*10 + qi
+					if !run.Want("sweep", idx) || run.TooMany() {
+						continue
+					}
+					rsp := ch.send(q)
+					n++
+					bad := ""
+					if !ch.alive() {
+						bad = "the emulator process died: " + ch.newPanics()
+					} else if p := ch.newPanics(); p != "" {
+						bad = "handler panic: " + clipN(p, 900)
+					} else if m := c20gWellFormed(q, rsp); m != "" {
+						bad = m
+					}
+					if bad != "" {
+						run.Violation("sweep", idx, bad+" | store="+kind+" case="+clipN(q.String(), 800), map[string]any{"store": kind, "case": q.String()})
+					}
+					run.Case(common.Hash64("sweep-utf8", kind, q.String()), rsp.status >= 400)
+					run.Count("requests_with_names_that_are_not_utf8", 1)
+				}
+			}
 			for ti, t := range tmpls {
 				for pi, param := range c20gParams {
 					for ji, junk := range c20gJunk {
